@@ -2,7 +2,11 @@
 
 package fieldmaskpb
 
-import "strings"
+import (
+	"strings"
+
+	"google.golang.org/protobuf/proto"
+)
 
 // Contracts for the path order and the prefix relation that Normalize, Union and Intersect are
 // built on (property C44). Specs are written from the comments of lessPath and hasPathPrefix:
@@ -226,5 +230,23 @@ func specFieldsOK(path string, f func(field string) bool) bool {
 func contract_rangeFields(path string, f func(field string) bool) (r bool) {
 	modifiesAll()
 	ensures(r == specFieldsOK(path, f))
+	return
+}
+
+// ---------------------------------------------------------------- numValidPaths: group fields
+//
+//@ pure protoreflect.FieldDescriptor.Kind protoreflect.FieldDescriptor.Message protoreflect.Descriptor.Name
+
+// A path segment names a group field only by the group's message name (the declared name of a
+// group in the .proto source): when a group field is accepted for a segment, the segment equals
+// that name. (Descriptor observers are uninterpreted pure functions; the walk through the
+// descriptors is otherwise not under contract.)
+//
+// @ props C44
+// @ mode int
+// @ nopanic
+// @ site md = fd.Message(): imp(fd.Kind() == protoreflect.GroupKind, string(fd.Message().Name()) == field)
+func contract_numValidPaths(m proto.Message, paths []string) (n int) {
+	modifiesAll()
 	return
 }
